@@ -162,6 +162,12 @@ func storeRun(args []string) error {
 	r := rand.New(rand.NewSource(*seed))
 	for sid := 1; sid <= *n; sid++ {
 		ids := []string{pick(r, hostileIDs), pick(r, hostileIDs), pick(r, hostileIDs[:4])}
+		if sid%2 == 0 {
+			// near-twins of one identifier: different strings are different keys, however similar
+			base := pick(r, hostileIDs[:len(hostileIDs)-2])
+			twins := []string{" " + base, base + " ", base + "\n", "\t" + base, strings.ToUpper(base), base + "/", "./" + base, base + "\x00", base + base}
+			ids = []string{base, pick(r, twins), pick(r, twins)}
+		}
 		var steps []map[string]any
 		add := func(op string, kv ...any) {
 			ev := map[string]any{"op": op}
